@@ -1875,7 +1875,12 @@ def _setitem(self, item: NestedKey, value: Any) -> None:  # noqa: D417
         or (item is True)
         or (item is None)
     ) and self.batch_size == ():
-        return self.update(value.squeeze(0))
+        if is_tensorclass(value) or isinstance(value, TensorDictBase):
+            # the index adds a leading dim of size 1: a value that has it loses it,
+            # a value without batch dims is broadcast, i.e. written as it is
+            return self.update(value.squeeze(0) if value.batch_dims else value)
+        # a number / tensor has no batch dim to squeeze: it is written to every
+        # entry by the tensordict, as for any other index
 
     if not is_tensorclass(value) and not isinstance(
         value, (TensorDictBase, numbers.Number, Tensor)
